@@ -112,7 +112,11 @@ def build_scheme_class(
             base_columns=base_columns, extra_columns=columns, filtered=datum.filtered
         )
     else:
-        columns = datum.columns
+        # a definition without a base goes through the same path, so that its
+        # `filtered` list is applied (and checked) instead of being ignored
+        columns = combine_columns(
+            base_columns=[], extra_columns=columns, filtered=datum.filtered
+        )
 
     name = "_".join([x.capitalize() for x in re.split(r"[-.]", datum.annotation)])
 
@@ -140,6 +144,16 @@ def build_schemes(data: List[SchemeDatum]) -> Dict[str, Type[MafScheme]]:
     :return: a mapping from the scheme annotation to the scheme
     """
     schemes: Dict[str, Type[MafScheme]] = {}
+    # a definition is identified (and extended) by its annotation: two
+    # definitions of the same one would silently overwrite each other, and
+    # which one survived would depend on the order they were loaded in
+    annotations = [d.annotation for d in data]
+    duplicates = sorted({a for a in annotations if annotations.count(a) > 1})
+    if duplicates:
+        raise ValueError(
+            "More than one scheme definition found for annotation "
+            "specification(s): %s" % ", ".join(duplicates)
+        )
     while data:
         # find a scheme data that either doesn't extend any other scheme, or
         # whose base scheme it extends we have already built
